@@ -6,7 +6,7 @@ from x2p import impl as I
 
 HEADER = ('Require Import X2P.Base.Prelude X2P.Corr.C17.\nOpen Scope Z_scope.\n')
 TARGETS = ['theories/Props/C17.vo', 'theories/Corr/C17.vo']
-ALPHA = ['a', 'B', 'c', '?', '*', '~', '.', ' ', '1', 'b', 'A']
+ALPHA = ['a', 'B', 'c', '?', '*', '~', '.', ' ', ' ', '1', 'b', 'A']
 
 
 def empty():
@@ -43,8 +43,11 @@ def make_case(rc):
         if via == 'direct':
             out = I.outcome(lambda: getattr(rt, '_' + k)(t, n))
         else:
-            f = '=%s(A1%s)' % (k.upper(), '' if n is None else ',%d' % n)
-            out = I.eval_formula(f, {'A1': t} if t != '' else {'A1': "=\"\""}, addr='D4')
+            if rc.get('lit'):
+                out = I.eval_formula('=%s("%s"%s)' % (k.upper(), t, '' if n is None else ',%d' % n), {}, addr='D4')
+            else:
+                f = '=%s(A1%s)' % (k.upper(), '' if n is None else ',%d' % n)
+                out = I.eval_formula(f, {'A1': t} if t != '' else {'A1': "=\"\""}, addr='D4')
         coq = 'C%s %s %s %s' % (k.capitalize(), C.cstr(t), C.copt(n, C.cz), C.cres(out))
         nt = n is not None and (n <= 0 or n >= len(t))
     elif k == 'mid':
@@ -52,7 +55,7 @@ def make_case(rc):
         if via == 'direct':
             out = I.outcome(lambda: rt._mid(t, s, n))
         else:
-            out = I.eval_formula('=MID(A1,%d,%d)' % (s, n), {'A1': t}, addr='D4')
+            out = I.eval_formula('=MID("%s",%d,%d)' % (t, s, n), {}, addr='D4') if rc.get('lit') else I.eval_formula('=MID(A1,%d,%d)' % (s, n), {'A1': t}, addr='D4')
         coq = 'CMid %s %s %s %s' % (C.cstr(t), C.cz(s), C.cz(n), C.cres(out))
         nt = s <= 1 or s >= len(t) or n == 0 or s + n > len(t)
     elif k == 'search':
@@ -111,12 +114,13 @@ def gen_recipes(rng, n):
             kind = rng.choice(['left', 'right'])
             if via == 'formula' and (t.startswith('=') or t == '' and nn is None):
                 via = 'direct'
-            out.append({'kind': kind, 't': t, 'n': nn, 'via': via})
+            out.append({'kind': kind, 't': t, 'n': nn, 'via': via, 'lit': via == 'formula' and t != '' and not any(ch in t for ch in '"?*~') and rng.random() < 0.5})
         elif r < 0.35:
             t = rtext(rng)
             if via == 'formula' and t == '':
                 via = 'direct'
-            out.append({'kind': 'mid', 't': t, 'k': rng.randint(-1, len(t) + 2), 'n': rng.randint(-1, len(t) + 2), 'via': via})
+            out.append({'kind': 'mid', 't': t, 'k': rng.randint(-1, len(t) + 2), 'n': rng.randint(-1, len(t) + 2), 'via': via,
+                        'lit': via == 'formula' and not any(ch in t for ch in '"?*~') and rng.random() < 0.5})
         elif r < 0.7:
             w = rtext(rng, 6, ['a', 'b', 'B', 'A', 'c', '.', '*', '?', '~', ' '])
             f = rtext(rng, 3, ['a', 'B', 'b', '?', '*', '~', '.', 'c'])
